@@ -125,4 +125,156 @@ theorem stayOK_iff (o : Bool) : ∀ ls, stayOK o ls = true ↔ StayLabels o ls
           | zero => simp [List.replicate_succ] at h
           | succ k => right; exact ⟨ho, k, by simpa [List.replicate_succ] using h⟩
 
+/-! ## From the route to the readable form -/
+
+/-- a route (`Lemmas/Routes.lean`) is a legal route in the sense of the checker -/
+theorem RouteOf.good {c : Ctx N} {E : Nat → Nat} {i : Nat} (h : RouteOf c E i (c.positions i)) : GoodRoute c i := by
+  have hne := h.ne
+  refine ⟨h.chain.imp (fun a b hab => hab.1), ?_, ?_, ?_, ?_, ?_⟩
+  · cases hp : c.positions i with
+    | nil => exact absurd hp hne
+    | cons x l =>
+      refine ⟨x, rfl, ?_⟩
+      have := (h.first x (by rw [hp]; rfl)).1
+      exact List.mem_map.2 ⟨_, this, rfl⟩
+  · refine forall_of_adjacent (P := fun x => capIn c.prog i x.2.1.caps = true) ?_ h.chain
+      (fun x hx => (h.first x hx).2.2.1)
+    intro a b hab ha
+    rcases hab.2 with ⟨e, _⟩ | ⟨_, _, _, _, hcap⟩
+    · rw [← e]; exact ha
+    · exact hcap
+  · have hall := stays_all_good c.stalled c.T hne h.chain (fun x hx => (h.first x hx).2.1) (by
+      intro x hx hd
+      rcases h.last x hx with ⟨h1, h2⟩ | ⟨_, h2⟩
+      · simp [h1, h2]
+      · rw [h2] at hd; cases hd)
+    intro s hs
+    exact (stayOK_iff _ _).1 (List.all_eq_true.1 hall s hs)
+  · refine h.chain.imp ?_
+    intro a b hab
+    rcases hab.2 with ⟨e, _⟩ | ⟨_, hp, hd, _, _⟩
+    · exact Or.inl (by rw [e])
+    · exact Or.inr ⟨hp, hd⟩
+  · cases hl : (c.positions i).getLast? with
+    | none => exact absurd (List.getLast?_eq_none_iff.1 hl) hne
+    | some x => exact ⟨x, rfl, h.last x hl⟩
+
+/-- a routed context satisfies C03 -/
+theorem Routed.c03_holds {c : Ctx N} {E : Nat → Nat} (h : Routed c E) : C03_Holds c := by
+  have hk := h.enteredCount_eq
+  refine ⟨?_, ?_, ?_, ?_, ?_⟩
+  · intro i _
+    rw [hk]; exact h.issued_iff i
+  · intro t ht u _ x hx
+    have h1 := (h.rowBase ht).idx_lt u.name x hx
+    have h2 := h.mono (t := t + 1) (t' := c.T) (by omega) (Nat.le_refl _)
+    have h3 := h.le_n
+    omega
+  · intro t ht e he
+    exact (h.rowBase ht).entry_names (n := e.1) (l := e.2) he
+  · intro hst
+    rw [hk]; exact (h.done hst).1
+  · intro i hi
+    exact (h.routeOf (by rw [← hk]; exact hi)).good
+
+/-! ## The Bool checker says exactly `C03_Holds` -/
+
+theorem goodRoute_iff (c : Ctx N) (i : Nat) :
+    GoodRoute c i ↔
+      consec ((c.positions i).map (·.1)) = true ∧
+      (match (c.positions i).head? with
+        | some x => isInB c.p x.2.1.name
+        | none => false) = true ∧
+      (c.positions i).all (fun x => supports c.prog i x.2.1) = true ∧
+      (stays (c.positions i)).all (fun s =>
+        stayOK (c.stalled && (s.getLast?.map (·.1 + 1)) == some c.T) (s.map (·.2.2))) = true ∧
+      pairsOK (fun a b => a.2.1.name = b.2.1.name ||
+        (decide (a.2.1.name ∈ predsOf c.p b.2.1.name) && a.2.2 != .D)) (c.positions i) = true ∧
+      (match (c.positions i).getLast? with
+        | some x => (c.stalled && x.1 + 1 == c.T) || (isOutB c.p x.2.1.name && x.2.2 == .U)
+        | none => false) = true := by
+  have e1 := consec_iff_adjacent (fun x : Nat × UnitM N × Stall => x.1) (l := c.positions i)
+  have e2 : (match (c.positions i).head? with
+        | some x => isInB c.p x.2.1.name
+        | none => false) = true ↔
+      ∃ x, (c.positions i).head? = some x ∧ x.2.1.name ∈ c.p.inBoundary.map (·.name) := by
+    cases (c.positions i).head? with
+    | none => simp
+    | some x => simp [isInB]
+  have e3 : (c.positions i).all (fun x => supports c.prog i x.2.1) = true ↔
+      ∀ x ∈ c.positions i, capIn c.prog i x.2.1.caps = true := by
+    rw [List.all_eq_true]; rfl
+  have e4 : (stays (c.positions i)).all (fun s =>
+        stayOK (c.stalled && (s.getLast?.map (·.1 + 1)) == some c.T) (s.map (·.2.2))) = true ↔
+      ∀ s ∈ stays (c.positions i),
+        StayLabels (c.stalled && (s.getLast?.map (·.1 + 1)) == some c.T) (s.map (·.2.2)) := by
+    rw [List.all_eq_true]
+    exact forall_congr' (fun s => forall_congr' (fun _ => stayOK_iff _ _))
+  have e5 := (pairsOK_iff_adjacent (fun a b : Nat × UnitM N × Stall => a.2.1.name = b.2.1.name ||
+        (decide (a.2.1.name ∈ predsOf c.p b.2.1.name) && a.2.2 != .D)) (l := c.positions i)).trans
+      (Adjacent_congr (S := fun a b => a.2.1.name = b.2.1.name ∨ (a.2.1.name ∈ predsOf c.p b.2.1.name ∧ a.2.2 ≠ .D))
+        (fun a b => by simp))
+  have e6 : (match (c.positions i).getLast? with
+        | some x => (c.stalled && x.1 + 1 == c.T) || (isOutB c.p x.2.1.name && x.2.2 == .U)
+        | none => false) = true ↔
+      ∃ x, (c.positions i).getLast? = some x ∧
+        ((c.stalled = true ∧ x.1 + 1 = c.T) ∨ (x.2.1.name ∈ c.p.outBoundary ∧ x.2.2 = .U)) := by
+    cases (c.positions i).getLast? with
+    | none => simp
+    | some x => simp [isOutB]
+  rw [e1, e2, e3, e4, e5, e6]
+  exact ⟨fun h => ⟨h.contiguous, h.starts, h.supports, h.labels, h.moves, h.ends⟩,
+    fun h => ⟨h.1, h.2.1, h.2.2.1, h.2.2.2.1, h.2.2.2.2.1, h.2.2.2.2.2⟩⟩
+
+/-- **The Bool checker evaluated by the driver says exactly `C03_Holds`.** -/
+theorem C03_ok_iff (c : Ctx N) : (Spec.C03 c).ok = true ↔ C03_Holds c := by
+  simp only [Spec.C03, Clauses.ok, List.all_cons, List.all_nil, Bool.and_true, Bool.and_eq_true,
+    List.all_eq_true, List.mem_range, beq_iff_eq, decide_eq_true_eq, Bool.or_eq_true]
+  constructor
+  · rintro ⟨h1, ⟨h2a, h2b⟩, h3, h4, h5, h6, h7, h8, h9⟩
+    refine ⟨?_, h2a, ?_, ?_, ?_⟩
+    · intro i hi
+      have := h1 i hi
+      rw [this]; simp
+    · intro t ht e he
+      have := h2b t ht e he
+      simpa [List.isEmpty_iff] using this
+    · intro hst
+      rcases h3 with h3 | h3
+      · rw [hst] at h3; cases h3
+      · exact h3
+    · intro i hi
+      exact (goodRoute_iff c i).2 ⟨h4 i hi, h5 i hi, List.all_eq_true.2 (h6 i hi), List.all_eq_true.2 (h7 i hi),
+        h8 i hi, h9 i hi⟩
+  · intro h
+    have hr := fun i hi => (goodRoute_iff c i).1 (h.route i hi)
+    refine ⟨?_, ⟨h.inProgram, ?_⟩, ?_, fun i hi => (hr i hi).1, fun i hi => (hr i hi).2.1,
+      fun i hi => List.all_eq_true.1 (hr i hi).2.2.1, fun i hi => List.all_eq_true.1 (hr i hi).2.2.2.1,
+      fun i hi => (hr i hi).2.2.2.2.1, fun i hi => (hr i hi).2.2.2.2.2⟩
+    · intro i hi
+      have := h.isPrefix i hi
+      cases hb : c.issued i <;> simp_all
+    · intro t ht e he
+      have := h.unitsOnly t ht e he
+      simpa [List.isEmpty_iff] using this
+    · cases hst : c.stalled with
+      | true => exact Or.inl rfl
+      | false => exact Or.inr (h.complete hst)
+
+variable [LT N] [DecidableRel (α := N) (· < ·)]
+
+/-! ## The theorems -/
+
+/-- **C03 (readable form).** -/
+theorem C03_routes' (p : Proc N) (prog : List (Instr N)) (tbl : List (Util N)) (stalled : Bool)
+    (hwf : wfProc p = true) (h : Diagram p prog tbl stalled) : C03_Holds (ctx p prog tbl stalled) := by
+  obtain ⟨E, hE⟩ := Diagram_routed hwf h
+  exact hE.c03_holds
+
+/-- **C03.** For a well-formed processor, every diagram of `simulate` — returned or carried by the stall error —
+passes all nine clauses of the C03 checker. -/
+theorem C03_routes (p : Proc N) (prog : List (Instr N)) (tbl : List (Util N)) (stalled : Bool)
+    (hwf : wfProc p = true) (h : Diagram p prog tbl stalled) : (Spec.C03 (ctx p prog tbl stalled)).ok = true :=
+  (C03_ok_iff _).2 (C03_routes' p prog tbl stalled hwf h)
+
 end ProcSim
